@@ -1,11 +1,18 @@
 Require Import Extraction ExtrOcamlBasic.
 From CrabV Require Import Base.ZInf Scalar.Itv Ir.Syntax Dom.ItvEnv Dom.ItvSolver Dom.ItvDomain
-     Dom.History Fix.Thresholds Dom.ArraySmash.
+     Dom.History Fix.Thresholds Dom.ArraySmash Dom.ArrayAdaptCore.
 Extraction Language OCaml.
 Set Extraction KeepSingleton.
 Extraction "../ocaml/gen/arrays_model.ml"
   ZInf.bound Itv.itv Itv.is_bot Itv.is_top
   Syntax.linexp Syntax.lincst Syntax.arith_op
-  ItvEnv.env ItvEnv.e_at ItvEnv.e_is_bot ItvEnv.e_is_top ItvDomain.operand
+  ItvEnv.env ItvEnv.e_at ItvEnv.e_is_bot ItvEnv.e_is_top ItvEnv.e_top ItvDomain.operand ItvDomain.d_add
   ArraySmash.sv ArraySmash.avar ArraySmash.ast ArraySmash.ahop ArraySmash.astep ArraySmash.aget
-  ArraySmash.s_top ArraySmash.s_is_bottom ArraySmash.s_is_top ArraySmash.s_leq ArraySmash.s_at.
+  ArraySmash.s_top ArraySmash.s_is_bottom ArraySmash.s_is_top ArraySmash.s_leq ArraySmash.s_at
+  ArraySmash.le_var
+  ArrayAdaptCore.cell ArrayAdaptCore.c_overlap ArrayAdaptCore.c_sym_overlap
+  ArrayAdaptCore.om_mk ArrayAdaptCore.om_erase ArrayAdaptCore.om_remove ArrayAdaptCore.om_get_overlap
+  ArrayAdaptCore.om_get_overlap_sym ArrayAdaptCore.om_join ArrayAdaptCore.om_meet ArrayAdaptCore.om_leq
+  ArrayAdaptCore.can_be_smashed ArrayAdaptCore.covers_all_offsets
+  ArrayAdaptCore.params ArrayAdaptCore.astate ArrayAdaptCore.store_decide ArrayAdaptCore.load_decide
+  ArrayAdaptCore.store_shape ArrayAdaptCore.load_shape ArrayAdaptCore.as_join ArrayAdaptCore.as_meet.
